@@ -223,11 +223,11 @@ type world struct {
 	strict bool // own restore executor: delete-by-value removes the FIRST match (iptables); else MockDataplane's executor
 	// fault probabilities (per mille) for the current Apply
 	pSave, pRest, pMid int
-	saves             []bool
-	rests             []rfaultRec
-	inputs            []string
-	pool              *[]string // known line texts for edits
-	tags              map[string]bool
+	saves              []bool
+	rests              []rfaultRec
+	inputs             []string
+	pool               *[]string // known line texts for edits
+	tags               map[string]bool
 }
 
 type mockFailure string
@@ -424,6 +424,76 @@ func (w *world) mutate(ls []string) []string {
 	return out
 }
 
+// innerEdit changes only NON-FINAL rules of a chain and keeps its length and its last rule: replace one
+// rule by a foreign rule / a rule with an old hash comment / an old-insert rule / a copy of another rule of
+// the chain, swap two non-final rules, or change the first rule only.
+func (w *world) innerEdit(ls []string) ([]string, bool) {
+	r := w.r
+	n := len(ls)
+	if n < 2 {
+		return ls, false
+	}
+	out := append([]string{}, ls...)
+	p := r.intn(n - 1)
+	kind := r.intn(7)
+	switch {
+	case kind == 0:
+		out[p] = fmt.Sprintf("-m foo --n %d -j ACCEPT", r.intn(5))
+	case kind == 1:
+		out[p] = fmt.Sprintf(`-m comment --comment "cali:stale%d" -j DROP`, r.intn(4))
+	case kind == 2:
+		out[p] = []string{"-j cali-FORWARD", "--jump felix-INPUT", "-m sneaky-rule -j DROP"}[r.intn(3)]
+	case kind == 3:
+		q := r.intn(n)
+		out[p] = ls[q]
+	case kind == 4 && n >= 3:
+		q := r.intn(n - 1)
+		out[p], out[q] = out[q], out[p]
+	case kind == 5:
+		out[0] = fmt.Sprintf("-m foo --n %d -j ACCEPT", r.intn(5))
+	default:
+		out[0] = fmt.Sprintf(`-m comment --comment "cali:stale%d" -j DROP`, r.intn(4))
+	}
+	same := true
+	for i := range out {
+		if out[i] != ls[i] {
+			same = false
+		}
+	}
+	return out, !same
+}
+
+// ownedWith returns the Felix-owned chains of the mock kernel that have at least n rules (sorted)
+func (w *world) ownedWith(n int) []string {
+	var out []string
+	for c, ls := range w.mock.Chains {
+		if owned(c) && len(ls) >= n {
+			out = append(out, c)
+		}
+	}
+	sort.Strings(out)
+	return out
+}
+
+// innerEditOp applies an inner edit to one owned chain of the mock kernel; returns the Coq text of the edit
+func (w *world) innerEditOp() (string, bool) {
+	cands := w.ownedWith(3)
+	if len(cands) == 0 || w.r.intn(4) == 0 {
+		cands = w.ownedWith(2)
+	}
+	if len(cands) == 0 {
+		return "", false
+	}
+	c := cands[w.r.intn(len(cands))]
+	content, ok := w.innerEdit(w.mock.Chains[c])
+	if !ok {
+		return "", false
+	}
+	w.mock.Chains[c] = content
+	w.tags["inner-edit"] = true
+	return "[(" + qs(c) + ", Some " + w.in.lines_(content) + ")]", true
+}
+
 var staleOwned = []string{"cali-old", "felix-x", "califw-y", "calipo-z", "cali-a", "cali-c"}
 var foreignNames = []string{"KUBE-SVC", "DOCKER", "calico-dhcp", "cal"}
 
@@ -438,6 +508,12 @@ func (w *world) genEdits(n int) string {
 			names = append(names, c)
 		}
 		sort.Strings(names)
+		if r.intn(4) == 0 {
+			if e, ok := w.innerEditOp(); ok {
+				xs = append(xs, strings.TrimSuffix(strings.TrimPrefix(e, "["), "]"))
+				continue
+			}
+		}
 		var c string
 		var content []string
 		del := false
@@ -552,7 +628,7 @@ func oneCase(seed uint64, idx int, maxOps int) line {
 		nv := 1 + r.intn(2)
 		for v := 0; v < nv; v++ {
 			var gs []grule
-			for n := r.intn(4); n > 0; n-- {
+			for n := r.intn(6); n > 0; n-- {
 				gs = append(gs, genRule(r, desiredNames[i+1:]))
 			}
 			versions[c] = append(versions[c], gs)
@@ -618,7 +694,12 @@ func oneCase(seed uint64, idx int, maxOps int) line {
 		if r.intn(2) == 0 {
 			ls := render(c, c, versions[c][r.intn(len(versions[c]))])
 			if r.intn(2) == 0 {
-				ls = w.mutate(ls)
+				if in2, ok := w.innerEdit(ls); ok && r.intn(2) == 0 {
+					ls = in2
+					tags["k0:owned-inner-edit"] = true
+				} else {
+					ls = w.mutate(ls)
+				}
 				tags["k0:owned-disturbed"] = true
 			} else {
 				tags["k0:owned-current"] = true
@@ -650,6 +731,58 @@ func oneCase(seed uint64, idx int, maxOps int) line {
 	successes, rewrites := 0, 0
 	sawFault := false
 	forceApply := false
+	doApply := func() {
+		w.saves, w.rests, w.inputs = nil, nil, nil
+		if dead {
+			ops = append(ops, "OpApply (FS [] [])")
+			sample = append(sample, "Apply (dead table: ignored)")
+			return
+		}
+		res := "Success"
+		func() {
+			defer func() {
+				if p := recover(); p != nil {
+					if mf, ok := p.(mockFailure); ok {
+						// a mock assertion outside the restore path: not expected
+						panic("unexpected mock failure: " + string(mf))
+					}
+					res = "Panic"
+					dead = true
+				}
+			}()
+			table.Apply()
+		}()
+		sv := make([]string, len(w.saves))
+		for i, b := range w.saves {
+			sv[i] = strconv.FormatBool(b)
+			sawFault = sawFault || b
+		}
+		rs := make([]string, len(w.rests))
+		for i, rf := range w.rests {
+			rs[i] = fmt.Sprintf("RF %s %v", rf.edits, rf.fail)
+			sawFault = sawFault || rf.fail || rf.any
+		}
+		ops = append(ops, fmt.Sprintf("OpApply (FS [%s] [%s])", strings.Join(sv, "; "), strings.Join(rs, "; ")))
+		ms := make([]string, len(w.inputs))
+		for i, inp := range w.inputs {
+			m := mentions(inp)
+			q := make([]string, len(m))
+			for a, c := range m {
+				q[a] = qs(c)
+			}
+			ms[i] = "[" + strings.Join(q, "; ") + "]"
+		}
+		obs = append(obs, fmt.Sprintf("OB %s %s [%s]", res, in.kernel(w.mock.Chains), strings.Join(ms, "; ")))
+		sample = append(sample, fmt.Sprintf("Apply saves=%v restores=%v -> %s inputs=%q kernel=%v", sv, rs, res, w.inputs, w.mock.Chains))
+		if res == "Success" {
+			successes++
+			if len(w.inputs) > 0 {
+				rewrites++
+			}
+		} else {
+			tags["apply-panic"] = true
+		}
+	}
 	for j := 0; j < nops || forceApply; j++ {
 		x := r.intn(100)
 		if forceApply || j == nops-1 {
@@ -691,7 +824,7 @@ func oneCase(seed uint64, idx int, maxOps int) line {
 			c := desiredNames[i]
 			var gs []grule
 			if r.intn(4) == 0 {
-				for n := r.intn(4); n > 0; n-- {
+				for n := r.intn(6); n > 0; n-- {
 					gs = append(gs, genRule(r, desiredNames[i+1:]))
 				}
 				pool = append(pool, render(c, c, gs)...)
@@ -770,55 +903,22 @@ func oneCase(seed uint64, idx int, maxOps int) line {
 					w.pRest = 1000
 				}
 			}
-			w.saves, w.rests, w.inputs = nil, nil, nil
-			if dead {
-				ops = append(ops, "OpApply (FS [] [])")
-				sample = append(sample, "Apply (dead table: ignored)")
-				continue
-			}
-			res := "Success"
-			func() {
-				defer func() {
-					if p := recover(); p != nil {
-						if mf, ok := p.(mockFailure); ok {
-							// a mock assertion outside the restore path: not expected
-							panic("unexpected mock failure: " + string(mf))
-						}
-						res = "Panic"
-						dead = true
-					}
-				}()
-				table.Apply()
-			}()
-			sv := make([]string, len(w.saves))
-			for i, b := range w.saves {
-				sv[i] = strconv.FormatBool(b)
-				sawFault = sawFault || b
-			}
-			rs := make([]string, len(w.rests))
-			for i, rf := range w.rests {
-				rs[i] = fmt.Sprintf("RF %s %v", rf.edits, rf.fail)
-				sawFault = sawFault || rf.fail || rf.any
-			}
-			ops = append(ops, fmt.Sprintf("OpApply (FS [%s] [%s])", strings.Join(sv, "; "), strings.Join(rs, "; ")))
-			ms := make([]string, len(w.inputs))
-			for i, inp := range w.inputs {
-				m := mentions(inp)
-				q := make([]string, len(m))
-				for a, c := range m {
-					q[a] = qs(c)
-				}
-				ms[i] = "[" + strings.Join(q, "; ") + "]"
-			}
-			obs = append(obs, fmt.Sprintf("OB %s %s [%s]", res, in.kernel(w.mock.Chains), strings.Join(ms, "; ")))
-			sample = append(sample, fmt.Sprintf("Apply saves=%v restores=%v -> %s inputs=%q kernel=%v", sv, rs, res, w.inputs, w.mock.Chains))
-			if res == "Success" {
-				successes++
-				if len(w.inputs) > 0 {
-					rewrites++
-				}
-			} else {
-				tags["apply-panic"] = true
+			doApply()
+		}
+	}
+	// resync scenario: converge, then another program changes only non-final rules of a programmed Felix chain
+	// (length and last rule kept), the refresh timer fires while the wanted state is unchanged, Apply again
+	if !dead && r.intn(5) < 3 {
+		w.pSave, w.pRest, w.pMid = 0, 0, 0
+		doApply()
+		if !dead {
+			if e, ok := w.innerEditOp(); ok {
+				ops = append(ops, "OpEdit "+e, "OpInvalidate")
+				sample = append(sample, "Edit (inner) "+e, "Invalidate")
+				table.InvalidateDataplaneCache("verif")
+				tags["oob-edit"] = true
+				tags["resync-after-inner-edit"] = true
+				doApply()
 			}
 		}
 	}
